@@ -188,7 +188,12 @@ def same_value(a, b):
             if onp.shape(a) != onp.shape(b):
                 return False
             a, b = onp.asarray(a), onp.asarray(b)
-        return a.shape == b.shape and a.dtype == b.dtype and a.tobytes() == b.tobytes() if a.dtype != object else False
+        if a.dtype == object or not (a.shape == b.shape and a.dtype == b.dtype):
+            return False
+        if a.dtype in (onp.dtype("longdouble"), onp.dtype("clongdouble")):
+            # x87 extended precision: each element carries uninitialised padding bytes, so the raw bytes are not comparable
+            return bool(onp.array_equal(a, b, equal_nan=True)) and bool(onp.array_equal(onp.signbit(a.real), onp.signbit(b.real)))
+        return a.tobytes() == b.tobytes()
     if isinstance(b, (float, complex, int, onp.generic)):
         try:
             # a Python float and numpy.float64 (a float subclass) are the same scalar kind (operators on Python floats
